@@ -202,6 +202,12 @@ SCRUB_REGION = dict(region='scrub_limits', file='cmdline/scrub.c', begin='/* no 
                     prologue='\tstruct snapraid_plan ps = *psp;\n\tblock_off_t countlimit = *countlimitp;', epilogue='\t*psp = ps;\n\t*countlimitp = countlimit;')
 
 
+SCRUB_MARK = dict(region='scrub_mark', file='cmdline/scrub.c', begin='\t\tif (silent_error_on_this_block', include_begin=True,
+                  end='/* mark the state as needing write */', max_lines=30, expect_loops=1,
+                  proto='static void region_scrub_mark(struct snapraid_state *state, int silent_error_on_this_block, int io_error_on_this_block, int error_on_this_block, int rehash, struct snapraid_rehash *rehandle, unsigned diskmax, block_off_t blockcur, snapraid_info info, time_t now)',
+                  prologue='\tunsigned j;')
+
+
 def c15(tier, seed):
     S = 'harness/h_scrub.c'
     sf = lambda *f: [x + ' (cmdline/scrub.c)' for x in f]
@@ -216,6 +222,10 @@ def c15(tier, seed):
            functions=['state_scrub: region "no more than the full count" .. "count_limit" (cmdline/scrub.c, extracted mechanically)'],
            note='region extraction drops everything outside the 25 lines and turns ps / countlimit / count / timemap / recentlimit into parameters'),
     ]
+    obs.append(Ob('scrub.mark.region', S, 'h_mark', route='dfcc', replace=['info_set'], inject=[SCRUB_REGION, SCRUB_MARK], defs={'VERIF_MARK_REGION': None}, unwind=18, small_path=True,
+                  timeout=900, mem=6, cost=8, replay=False,
+                  functions=['state_scrub_process: region "set the error status" .. "mark the state as needing write" (cmdline/scrub.c, extracted mechanically)', 'info_make / info_set_bad (cmdline/elem.h)'],
+                  note='every combination of silent / I/O / plain error, hash migration, info word, time; info_set replaced by a recording contract (dfcc); 2 disks in the rehash loop'))
     for c, bmax in ((100, 100), (12, 1)):
         obs.append(Ob('scrub.md.c%d' % c, S, 'h_md', inject=[SCRUB_REGION], defs={'MD_C': c, 'MD_BMAX': bmax}, unwind=4, small_path=True, solver=KISSAT, timeout=900, mem=6, cost=10,
                       functions=sf('md'), note='divisor %d as at the call site, a symbolic 32-bit, b <= %d' % (c, bmax)))
@@ -235,6 +245,12 @@ def crc_obs(tier):
     return obs
 
 
+REPAIR_CHG = dict(region='repair_chg', file='cmdline/check.c', begin="/* reprocess the CHG blocks, for which we don't have a hash to check */", end='return 0;', end_first_after=True,
+                  max_lines=70, expect_loops=1,
+                  proto='static void region_repair_chg(struct snapraid_state *state, int rehash, struct failed_struct *failed, unsigned failed_count, void **buffer, void *buffer_zero)',
+                  prologue='\tunsigned j;')
+
+
 def check_obs(tier):
     K = 'harness/h_check.c'
     cf = lambda *f: [x + ' (cmdline/check.c)' for x in f]
@@ -244,10 +260,14 @@ def check_obs(tier):
         Ob('check.is_hash_matching', K, 'h_is_hash_matching', route='dfcc', replace=['blockcmp', 'file_block_size', 'raid_gen'], unwind=12, small_path=True, timeout=900, mem=6, cost=8, object_bits=12,
            functions=cf('is_hash_matching'), replay=False, kind='bounded', bound='at most 3 failed blocks per stripe in the driver',
            note='every block state / out-of-date mark / comparison outcome; callees replaced by contracts (goto-instrument --dfcc)'),
-        Ob('check.repair_step', K, 'h_repair_step', route='dfcc', replace=['raid_data', 'raid_gen', 'is_hash_matching', 'is_parity_matching'], unwind=26, small_path=True, object_bits=12,
-           timeout=1800, mem=8, cost=30, functions=cf('repair_step') + ['combination_first / combination_next (raid/combo.h)'], replay=False, kind='bounded',
-           bound='at most 3 failed blocks, parity levels 1..4 (thorough: 6), every readability pattern of the parities and every sequence of validation verdicts',
-           defs={'REPAIR_LEVEL_MAX': 6 if tier == 'thorough' else 4},
+        Ob('check.repair.chg_region', K, 'h_repair_chg', route='dfcc', replace=['blockcmp', 'file_block_size'], inject=[REPAIR_CHG], defs={'VERIF_CHG_REGION': None}, unwind=18, small_path=True,
+           object_bits=12, timeout=900, mem=8, cost=10, replay=False, kind='bounded', bound='at most 3 failed blocks, block size 8',
+           functions=['repair: region "reprocess the CHG blocks" (cmdline/check.c, extracted mechanically)', 'hash_is_invalid / hash_is_zero (cmdline/elem.h)'],
+           note='every bad / state / past-hash kind (invalid, zero, ordinary) per entry, every rebuilt content, every comparison outcome; entries sit in disk slots different from their position in failed[]; blockcmp replaced by a recording contract (dfcc)'),
+        Ob('check.repair_step', K, 'h_repair_step', route='dfcc', replace=['raid_data', 'raid_gen', 'is_hash_matching', 'is_parity_matching'], unwind=14 if tier == 'thorough' else 10, small_path=True, object_bits=12, solver=KISSAT,
+           timeout=6000 if tier == 'thorough' else 1500, mem=12, cost=30, functions=cf('repair_step') + ['combination_first / combination_next (raid/combo.h)'], replay=False, kind='bounded',
+           bound='1 failed block and parity levels 1..2 (thorough: 2 failed blocks, levels 1..3), every readability pattern of the parities and every sequence of validation verdicts',
+           defs={'REPAIR_LEVEL_MAX': 3 if tier == 'thorough' else 2, 'NFAIL': 2 if tier == 'thorough' else 1, 'NATT': 4 if tier == 'thorough' else 3},
            note='raid_data / raid_gen / is_hash_matching / is_parity_matching replaced by recording contracts (goto-instrument --dfcc)'),
     ]
 
@@ -304,8 +324,57 @@ def state_obs(tier):
                note="region = the validity checks on the announced level / split count plus the auto-configuration step; state, v_level, v_split_mac become parameters; every 32-bit value of both")]
 
 
+SYNC_COMPLETE = dict(region='sync_complete', file='cmdline/sync.c', begin="/* if we have read all the data required and it's correct, proceed with the parity */",
+                     end='/* finally schedule parity write */', max_lines=90, expect_loops=2,
+                     proto='static void region_sync_complete(struct snapraid_state *state, struct snapraid_handle *handle, unsigned diskmax, block_off_t blockcur, int error_on_this_block, int io_error_on_this_block, int silent_error_on_this_block, int fixed_error_on_this_block, int parity_needs_to_be_updated, int *parity_going_p, int rehash, struct snapraid_rehash *rehandle, void **buffer, snapraid_info info, time_t now)',
+                     prologue='\tunsigned j;\n\tint parity_going_to_be_updated = *parity_going_p;', epilogue='\t*parity_going_p = parity_going_to_be_updated;')
+
+
+SYNC_HASH = dict(region='sync_hash', file='cmdline/sync.c', scope='static int state_sync_process(struct snapraid_state* state, struct snapraid_parity_handle* parity_handle, block_off_t blockstart, block_off_t blockmax)', begin='/* now compute the hash */', end='/* if we have only silent errors we can try to fix them on-the-fly */',
+                 max_lines=100, brace_balance=-1,
+                 proto='static void region_sync_hash(struct snapraid_state *state, int rehash, void **buffer, unsigned diskcur, unsigned read_size, struct snapraid_rehash *rehandle, struct snapraid_block *block, struct snapraid_disk *disk, struct snapraid_file *file, block_off_t file_pos, struct snapraid_task *task, block_off_t blockcur, unsigned *error_p, int *error_on_p, unsigned *silent_error_p, int *silent_on_p, struct failed_struct *failed, unsigned *failed_count_p, int *needs_p)',
+                 prologue='\tunsigned char hash[HASH_MAX];\n\tchar esc_buffer[ESC_MAX];\n\tunsigned error = *error_p, silent_error = *silent_error_p, failed_count = *failed_count_p;\n\tint error_on_this_block = *error_on_p, silent_error_on_this_block = *silent_on_p, parity_needs_to_be_updated = *needs_p;\n\tint once;\n\tfor (once = 0; once < 1; ++once) { /* the per-disk loop body: `continue` ends it; the region text closes this brace */',
+                 epilogue='\t*error_p = error; *silent_error_p = silent_error; *failed_count_p = failed_count;\n\t*error_on_p = error_on_this_block; *silent_on_p = silent_error_on_this_block; *needs_p = parity_needs_to_be_updated;\n\t(void)esc_buffer;')
+
+
+SYNC_FIXCHK = dict(region='sync_fixchk', file='cmdline/sync.c', begin='/* check the result and prepare the data */', end='/* if all is processed, we have fixed it */',
+                   max_lines=50, expect_loops=1,
+                   proto='static unsigned region_sync_fixchk(struct snapraid_state *state, int rehash, struct failed_struct *failed, unsigned failed_count, void **buffer, void **copy)',
+                   prologue='\tunsigned j;', epilogue='\treturn j;')
+
+
+def sync_fixchk_obs():
+    return [Ob('sync.fixcheck.region', 'harness/h_sync.c', 'h_sync_fixchk', inject=[SYNC_COMPLETE, SYNC_FIXCHK], defs={'VERIF_FIXCHK_REGION': None}, unwind=18, small_path=True, timeout=900, mem=8, cost=8, replay=False,
+               kind='bounded', bound='at most 3 failed blocks per stripe, block size 8',
+               functions=['state_sync_process: region "check the result and prepare the data" .. "if all is processed" (cmdline/sync.c, extracted mechanically)'],
+               note='every state BLK/CHG/REP/DELETED of each failed block, sizes, buffer and saved-copy contents, outcome of each digest comparison; memhash by contract')]
+
+
+def sync_hash_obs():
+    return [Ob('sync.hash.region', 'harness/h_sync.c', 'h_sync_hash', inject=[SYNC_COMPLETE, SYNC_HASH], defs={'VERIF_HASH_REGION': None}, unwind=18, small_path=True, timeout=900, mem=8, cost=8, replay=False,
+               functions=['state_sync_process: region "now compute the hash" .. "if we have only silent errors" (cmdline/sync.c, extracted mechanically)', 'block_has_updated_hash / block_has_invalid_parity / hash_is_unique (cmdline/elem.h)'],
+               note='every block state BLK/REP/CHG, recorded hash, digests of both kinds, hash size 2..16, migration flag; memhash by contract (arbitrary digest per kind)')]
+
+
+def c06(tier, seed):
+    Y = 'harness/h_sync.c'
+    return [
+        Ob('sync.block_is_enabled', Y, 'h_block_is_enabled', route='dfcc', replace=['fs_par2block_find'], inject=[SYNC_COMPLETE], unwind=6, small_path=True, timeout=900, mem=8, cost=8, replay=False,
+           functions=['block_is_enabled (cmdline/sync.c)', 'block_has_file / block_has_invalid_parity (cmdline/elem.h)'], kind='bounded', bound='3 disk slots',
+           note='every presence / block-state combination on 3 disks and the force-full flag; fs_par2block_find replaced by contract (dfcc)'),
+        Ob('sync.complete.region', Y, 'h_sync_complete', route='dfcc', replace=['fs_par2block_find', 'fs_deallocate', 'raid_gen', 'info_set'], inject=[SYNC_COMPLETE], unwind=18, small_path=True,
+           solver=KISSAT, defs={'ND': 3 if tier == 'thorough' else 2}, timeout=3000, mem=8, cost=40, replay=False, kind='bounded', bound='2 disk slots (thorough: 3)',
+           functions=['state_sync_process: region "proceed with the parity" .. "finally schedule parity write" (cmdline/sync.c, extracted mechanically)'],
+           note='every combination of error / I/O error / silent / fixed / needs-update / rehash flags, block states and presence on 3 disks; callees replaced by recording contracts (dfcc)'),
+    ] + sync_fixchk_obs()
+
+
 def c05(tier, seed):
     return check_obs(tier)
+
+
+def c19(tier, seed):
+    return sync_hash_obs()
 
 
 def c09(tier, seed):
@@ -335,6 +404,8 @@ PROPS = {
     'C18': dict(level='other', obligations=c18, explanation='', trusted_base=[], assumptions=[], not_covered=[]),
     'C20': dict(level='other', obligations=c20, explanation='', trusted_base=[], assumptions=[], not_covered=[]),
     'C05': dict(level='other', obligations=c05, explanation='', trusted_base=[], assumptions=[], not_covered=[]),
+    'C06': dict(level='other', obligations=c06, explanation='', trusted_base=[], assumptions=[], not_covered=[]),
+    'C19': dict(level='other', obligations=c19, explanation='', trusted_base=[], assumptions=[], not_covered=[]),
     'C09': dict(level='other', obligations=c09, explanation='', trusted_base=[], assumptions=[], not_covered=[]),
     'C10': dict(level='other', obligations=c10, explanation='', trusted_base=[], assumptions=[], not_covered=[]),
     'C02': dict(level='proof', obligations=c02,
@@ -439,4 +510,75 @@ MANIFEST_TEXT.update({
                 design_ref='DESIGN.md section 4 C20', level_note='strings <= 5 bytes; POSIX quoting rules transcribed by hand; report bodies not covered', technique='CBMC drivers on real cmdline/support.c esc_tag / esc_shell_multi with spec decoders'),
 })
 for k in ('C15', 'C18', 'C20'):
+    NOT_YET.pop(k, None)
+
+
+# ---------------------------------------------------------------- composed properties
+def c16(tier, seed):
+    """format stability = every constant / encoding is pinned to a definition that is not in the repo"""
+    c17 = [o for o in PROPS['C17']['obligations'](tier, seed) if o.name in ('parity.split_find.contract', 'parity.split_find.lemma')]
+    return table_obs(tier) + crc_obs(tier) + stream_obs(['h_sgetb32', 'h_sgetb64', 'h_sgetble32', 'h_sgetbs', 'h_rt32', 'h_rt64', 'h_rtle32', 'h_rtbs']) + staterec_obs(tier) + elem_obs(tier) + c17
+
+
+def c04(tier, seed):
+    c15 = [o for o in PROPS['C15']['obligations'](tier, seed) if o.name in ('scrub.mark.region', 'scrub.block_is_enabled', 'scrub.info_word')]
+    return [o for o in check_obs(tier) if o.name == 'check.blockcmp'] + sync_hash_obs() + c15
+
+
+def c01(tier, seed):
+    c03 = [o for o in PROPS['C03']['obligations'](tier, seed) if o.name.startswith(('rec.', 'mds.'))]
+    return c03 + check_obs(tier) + elem_obs(tier)
+
+
+PROPS['C16'] = dict(level='other', obligations=c16)
+PROPS['C04'] = dict(level='other', obligations=c04)
+PROPS['C01'] = dict(level='other', obligations=c01)
+
+PROPS['C05'].update(
+    explanation='Decisions of fix that protect against writing wrong data, each on the real cmdline/check.c: blockcmp accepts a block iff the digest of its valid part equals the recorded hash over BLOCK_HASH_SIZE bytes and the padding is zero, with the previous hash kind exactly during a migration; is_hash_matching accepts iff at least one failed block is checkable and none mismatches; repair_step returns success ONLY after a reconstruction validated by hash (when a failed block has an up-to-date hash) or by a spare parity, tries every combination of readable parities exactly once, and returns -1 iff no attempt is possible; the region of repair() that classifies rebuilt pending (CHG) blocks marks them out-of-date (-> .unrecoverable, never "recovered") unless the rebuilt block OF THAT ENTRY provably is the new version (unknown past hash / zero past hash and all-zero block / past hash equal to the rebuilt block).',
+    trusted_base=['memhash by contract (arbitrary digest)', 'raid_data / raid_gen / file_block_size by recording contracts (dfcc replace)', 'region extraction of repair()'],
+    assumptions=['bounded: <= 3 failed blocks per stripe (repair_step quick: 1 failed block, levels <= 2), block size 8 in the drivers', 'the two candidate findings of the design (check.c:439-452 old length vs new length; sync.c:1015 CHG hash overwritten early) were NOT replayed in this session and are neither claimed fixed nor listed as findings',
+                 'the failed-set construction, the write-back guard and file_post of state_check_process are NOT under an obligation'],
+    not_covered=['state_check_process loop (failed-set construction, write-back, DAMAGED marking)', 'file_post (rename to .unrecoverable, mtime)', 'state_import_fetch / state_search_fetch', 'second strategy of repair() (parity not updated)'])
+PROPS['C06'].update(
+    explanation='The decisions that make "recorded as synced" imply "parity valid", each on the real cmdline/sync.c: block_is_enabled processes a stripe iff it holds a file block and (a block with invalid parity or a forced full rebuild); the completion region marks blocks BLK and releases deleted blocks ONLY when the stripe had no error, no I/O error and any silent error was fixed; exactly then, if some block had invalid parity, raid_gen recomputes parity from the buffers and the write is scheduled; a silent or I/O error always leaves the stripe marked bad; the time is refreshed only when parity was really updated and no silent error occurred. After an in-memory repair every non-BLK failed block gets back exactly the bytes read (so the new parity is the parity of what is recorded) and the stripe counts as fixed iff every repaired block hashes to its record.',
+    trusted_base=['fs_par2block_find / fs_deallocate / raid_gen / info_set by recording contracts (dfcc replace)', 'memhash by contract', 'region extraction of state_sync_process (3 regions)'],
+    assumptions=['bounded: 2 disk slots in quick (3 thorough), block size 8', 'that the bytes hashed are the bytes on disk, the writer threads, parity_write I/O, autosave ordering and histories are not addressed', 'fs_* extent-tree invariants (no overlap, every block mapped, monotone positions) are NOT under an obligation'],
+    not_covered=['fs_allocate / fs_deallocate / fs_check (tommy_tree)', 'parity_allocated_size / parity_used_size', 'io.c worker threads', 'state_write ordering vs parity_sync'])
+PROPS['C19'] = dict(level='other', obligations=c19)
+PROPS['C19'].update(
+    explanation='What sync does with the hash of a block just read (region of state_sync_process, every block state / recorded hash / digest / hash size / migration flag): a block whose hash is only provisional (REP: inherited from a file with the same name, size and time-stamp, or replaced data) and does not match the data stops the stripe with a plain error - it is neither recorded nor "repaired" from parity, its state and hash are kept; a synced (BLK) block that no longer matches is a silent error queued for in-memory repair; matching data raises nothing; a pending (CHG) block forces a parity update unless its fresh hash equals a unique recorded one. Together with the completion region of C06 (no BLK unless the stripe had no error) this is "the data is hashed before its stripe is recorded as synced, and a mismatch stops the stripe".',
+    trusted_base=['memhash by contract (arbitrary digest per kind)', 'region extraction of state_sync_process'],
+    assumptions=['copy-detection eligibility in scan.c (same name/size/time-stamp), file_copy, the pre-hash pass state_hash_process, state_import_fetch / state_search_fetch of check/fix are NOT under an obligation'],
+    not_covered=['scan.c copy detection', 'file_copy', 'state_hash_process', 'import.c / search.c fetch functions'])
+PROPS['C16'].update(
+    explanation='Format stability is decided as "every constant and encoding equals a definition that is NOT in the repository": parity coefficients and every lookup table (table-free GF(2^8) spec, documented Cauchy / power matrix, all indices); CRC-32C tables == reflected 0x82F63B78 and the checksum function; the variable-length integer / little-endian / string codecs (all values); the nanosecond field encoding; the block layout rule of a file (block sizes 2^10..2^24); the split-parity address map. Any self-consistent change of one of them (which the suite cannot see, since it creates its arrays with the binary under test) fails a named obligation.',
+    trusted_base=['spec/gf_spec.h, the bitwise CRC and varint specifications in the drivers'],
+    assumptions=['the block HASH functions (MurmurHash3_x86_128, SpookyHash V2, MetroHash) are NOT pinned: no independent specification was written for them; a change of hash tail handling / seed mixing would NOT be detected', 'record letters and header bytes of the content file are not pinned'],
+    not_covered=['cmdline/murmur3.c, spooky2.c, metro.c', 'content header / record tags', 'reference arrays of earlier versions (those are tests, not this technique)'])
+PROPS['C04'].update(
+    explanation='Detection logic only: blockcmp (check/fix) accepts iff digest and padding match; the hash region of sync and the book-keeping region of scrub classify a mismatch on a synced block as a silent error and mark exactly that stripe bad (keeping time and other marks), classify differences on unsynced blocks as plain errors that leave the books alone, and refresh / clear marks only for stripes verified correct; scrub selects bad stripes in every plan. The relation is always "whenever the digest differs" (memhash is an arbitrary function here; collision freedom is not assumed).',
+    trusted_base=['memhash by contract', 'region extraction (scrub.c, sync.c)'],
+    assumptions=['the data-compare part of state_scrub_process and state_check_process (which file/position is named in the message, parity compare per level) is NOT under an obligation', 'reader threads, plan -> stripe coverage beyond C15, status listing'],
+    not_covered=['state_scrub_process compare loop', 'state_check_process compare loop', 'status.c'])
+PROPS['C01'].update(
+    explanation='Only the per-stripe recovery engine: C03 obligations (MDS minors up to order 3, raid_rec dispatch for every nd/np/failure list, raid_delta_gen, recovery through parity 0, raid_invert) + the decisions of fix (repair_step never returns success without a validated reconstruction and tries every combination of readable parities; blockcmp; is_hash_matching; CHG classification) + the block layout rule of a file. The statement itself is a history (sync ... damage ... fix ... check) and is NOT decided.',
+    trusted_base=['see C03 and C05'],
+    assumptions=['table-driven reconstruction loops not under obligation (cbmc defect, DESIGN 2.3)', 'everything outside the listed functions (failed-set construction, file_post, links/dirs re-creation, handle I/O, composition over stripes and files) is unverified'],
+    not_covered=['state_check_process', 'file_post', 'links, directories, time-stamps', 'raid_rec1/2/X T[] loops'])
+MANIFEST_TEXT.update({
+    'C05': dict(level_text='The functions and regions of check.c that decide whether a reconstruction is accepted and whether a rebuilt block is trusted are decided for all inputs within small bounds; the 2000-line driver loop around them is not - level other.',
+                design_ref='DESIGN.md section 4', level_note='memhash / raid_* by contract; <= 3 failed blocks; state_check_process glue, write-back and file_post not covered', technique='CBMC code contracts (dfcc replace) + region extraction on real cmdline/check.c'),
+    'C06': dict(level_text='The three decisions in state_sync_process that tie "BLK" to "parity recomputed from these buffers" are decided for all flag / state combinations within small bounds; block-map invariants and histories are not - level other.',
+                design_ref='DESIGN.md section 4', level_note='callees by recording contracts; 2-3 disk slots; fs_* trees, threads, I/O, autosave not covered', technique='CBMC code contracts (dfcc replace) + region extraction on real cmdline/sync.c'),
+    'C19': dict(level_text='The stripe-level rule "a provisional hash is checked against the data before the stripe can be recorded, a mismatch stops it" is decided on the extracted region for all inputs; eligibility of copies in scan.c and the import/search fetchers are not - level other.',
+                design_ref='DESIGN.md section 4', level_note='memhash by contract; scan.c, file_copy, pre-hash pass, import/search not covered', technique='CBMC driver on a mechanically extracted region of real cmdline/sync.c'),
+    'C16': dict(level_text='Bit-for-bit stability of tables, checksum, codecs, layout and address map is decided against definitions outside the repo; the block hash functions are NOT pinned - hence other, with that gap stated.',
+                design_ref='DESIGN.md section 4', level_note='hash functions (murmur3/spooky2/metro) and record tags not pinned', technique='composition of the C02 / C09 / C10 / C17 obligations + file block layout'),
+    'C04': dict(level_text='Detection and marking LOGIC is decided on the functions / regions that take those decisions; that every stripe is actually visited and the right file named is not - level other, narrow.',
+                design_ref='DESIGN.md section 4', level_note='memhash arbitrary; compare loops of scrub/check and status not covered', technique='composition: blockcmp + sync hash region + scrub mark region + scrub selection'),
+    'C01': dict(level_text='Composition of the recovery engine obligations (C03) and the acceptance decisions of fix (C05); the history-level statement is not decided - level other, narrow.',
+                design_ref='DESIGN.md section 4', level_note='see C03 / C05; state_check_process, file_post, links/dirs not covered', technique='composition of C03 + C05 obligations'),
+})
+for k in ('C01', 'C04', 'C05', 'C06', 'C16', 'C19'):
     NOT_YET.pop(k, None)
